@@ -650,6 +650,25 @@ def _real_ep(op: list[str]) -> str:
 			return hx(EntryPath(a[0]).escaped_origin)
 		if k == 'ep.relativefy':
 			return f'ok {hx(EntryPath(a[0]).relativefy(a[1]).origin)}'
+		if k.startswith('dsn.'):
+			from rogw.tranp.dsn.dsn import DSN
+			d = a[0]
+			if k == 'dsn.left':
+				return f'ok {hx(DSN.left(a[1], int(a[2]), delimiter=d))}'
+			if k == 'dsn.right':
+				return f'ok {hx(DSN.right(a[1], int(a[2]), delimiter=d))}'
+			if k == 'dsn.shift':
+				return f'ok {hx(DSN.shift(a[1], int(a[2]), delimiter=d))}'
+			if k == 'dsn.root':
+				return f'ok {hx(DSN.root(a[1], delimiter=d))}'
+			if k == 'dsn.parent':
+				return f'ok {hx(DSN.parent(a[1], delimiter=d))}'
+			if k == 'dsn.elements':
+				return 'ok ' + ','.join(hx(e) for e in DSN.elements(a[1], delimiter=d))
+			if k == 'dsn.count':
+				return str(DSN.elem_counts(a[1], delimiter=d))
+			if k == 'dsn.join':
+				return hx(DSN.join(*a[1], delimiter=d))
 		raise AssertionError(op)
 	except Exception as e:  # noqa: BLE001
 		return exc_enum(e)
@@ -663,6 +682,10 @@ def ep_line(op: list[Any]) -> str:
 		return '\t'.join([k, hx(op[1]), str(op[2])])
 	if k == 'ep.identify':
 		return '\t'.join([k, hx(op[1]), hx(op[2]), str(op[3])])
+	if k in ('dsn.left', 'dsn.right', 'dsn.shift'):
+		return '\t'.join([k, hx(op[1]), hx(op[2]), str(op[3])])
+	if k == 'dsn.join':
+		return '\t'.join([k, hx(op[1]), ','.join(hx(t) for t in op[2])])
 	return '\t'.join([k, *[hx(x) for x in op[1:]]])
 
 
@@ -693,11 +716,18 @@ def stream_path_algebra(ctx: Ctx) -> Stream:
 			ops.append(['ep.only', p, rng.sample(sorted(set(tagset) | {'a', 'b'}), rng.randint(0, min(3, len(set(tagset) | {'a', 'b'}))))])
 			starts = '.'.join(els[:rng.randint(0, len(els))]) if rng.random() < 0.7 else gen_path_string(rng)
 			ops.append(['ep.relativefy', p, starts])
+			# the DSN functions below EntryPath (dsn.py), default and other delimiters ('#' module paths, '::' C++ names)
+			d = rng.choice(['.', '.', '.', '#', '::', ':'])
+			q = p if d == '.' else p.replace('.', d if rng.random() < 0.8 else d + d[:1])
+			ints = [-9, -3, -2, -1, 0, 1, 2, 3, 9]
+			ops += [['dsn.left', d, q, rng.choice(ints)], ['dsn.right', d, q, rng.choice(ints)], ['dsn.shift', d, q, rng.choice(ints)]]
+			ops += [['dsn.root', d, q], ['dsn.parent', d, q], ['dsn.elements', d, q], ['dsn.count', d, q]]
+			ops.append(['dsn.join', d, [rng.choice(['a', 'b[1]', '', q, 'x' + d + 'y']) for _ in range(rng.randint(1, 4))]])
 		lines = [ep_line(op) for op in ops]
 		real = [real_ep(op) for op in ops]
 		cases.append(({'kind': 'wf+malformed' if i % 2 == 0 else 'malformed', 'ops': len(ops)}, lines, real))
 	st = common.correspond('path-algebra', cases, 'tree', classify=lambda d: d['kind'])
-	st.note = 'EntryPath algebra on well-formed paths of random trees (indices up to 3 digits through identify) and malformed strings (empty elements, stray brackets, non-numeric / negative / multiple indices, #)'
+	st.note = 'DSN.left/right/shift/root/parent/elements/elem_counts/join with the delimiters . # :: : (counts -9..9) and the EntryPath algebra on well-formed paths of random trees (indices up to 3 digits through identify) and malformed strings (empty elements, stray brackets, non-numeric / negative / multiple indices, #)'
 	return st
 
 
@@ -855,6 +885,63 @@ def search_laws(ctx: Ctx) -> SearchResult:
 		earlier.append((name, root))
 		if len(res.samples) < 2:
 			res.samples.append({'tree': name, 'entries': len(walk), 'first_paths': [p for p, _ in walk[:5]]})
+	res.distinct = len(seen)
+	return res
+
+
+@guarded_search
+def search_dsn(ctx: Ctx) -> SearchResult:
+	"""The DSN functions under EntryPath against Python's own split / slice / join on the same string (dsn.py), and the
+	algebraic laws between them (left + right re-join to the whole, shift = left / right, root / parent = elements)."""
+	from rogw.tranp.dsn.dsn import DSN
+	from rogw.tranp.syntax.ast.entry import EntryOfDict
+	rng = ctx.sub_rng('dsn')
+	res = SearchResult('DSN.left/right/shift/root/parent/elements/elem_counts/join vs own split-slice-join and the laws between them')
+	seen = set()
+	dl = Deadline(ctx, 'search_dsn', 10, 60)
+	for i in range(ctx.scale(150, 2000)):
+		if dl.over():
+			break
+		if i % 2 == 0:
+			walk = trees.walk_entries(EntryOfDict(trees.gen_dict_tree(rng, 2 + i % 4, 2 + i % 5)))
+			p = rng.choice(walk)[0]
+		else:
+			p = gen_path_string(rng)
+		d = rng.choice(['.', '.', '#', '::', ':'])
+		o = p if d == '.' else p.replace('.', d if rng.random() < 0.8 else d + d[:1])
+		own = [e for e in o.split(d) if e]
+		n = len(own)
+		k = rng.choice([-9, -2, -1, 0, 1, 2, 3, n - 1, n, n + 1])
+		bad = None
+		try:
+			with Budget():
+				checks = [
+					('elements', DSN.elements(o, delimiter=d), own),
+					('elem_counts', DSN.elem_counts(d.join(own), delimiter=d), n),
+					(f'left({k})', DSN.left(o, k, delimiter=d), d.join(own[:k])),
+					(f'right({k})', DSN.right(o, k, delimiter=d), d.join(own[-k:] if k != 0 else own)),
+					(f'shift({k})', DSN.shift(o, k, delimiter=d), d.join(own[k:] if k > 0 else own[:k] if k < 0 else own)),
+					('join', DSN.join(*own, '', delimiter=d), d.join(own)),
+				]
+				if 0 <= k <= n:
+					checks.append((f'left({k})+right({n - k})', DSN.join(DSN.left(o, k, delimiter=d), DSN.right(o, n - k, delimiter=d) if n - k else '', delimiter=d), d.join(own)))
+				if n >= 1:
+					checks.append(('root', DSN.root(o, delimiter=d), own[0]))
+				if n >= 2:
+					checks.append(('parent', DSN.parent(o, delimiter=d), own[-2]))
+				for name, got, want in checks:
+					if got != want:
+						bad = f'DSN.{name} of {o!r} (delimiter {d!r}) = {got!r}, split/slice/join says {want!r}'
+						break
+		except Exception as e:  # noqa: BLE001 - these calls succeed on every string
+			bad = f'DSN on {o!r} (delimiter {d!r}, k={k}) raised {exc_enum(e)}: {str(e)[:160]}'
+		res.cases += 1
+		seen.add((o, d, k))
+		if bad:
+			res.findings.append(Finding(key='dsn-law', what=bad, replay={'origin': o, 'delimiter': d, 'k': k}))
+			break
+		if len(res.samples) < 2:
+			res.samples.append({'origin': o, 'delimiter': d, 'k': k})
 	res.distinct = len(seen)
 	return res
 
@@ -1448,6 +1535,9 @@ STATEMENTS = {
 	'relativefy_safe_of_root_name': 'tag-level sufficient condition: if the root tag has a non-digit character and is a substring of no tag below the root (RootNameFree, decidable) then RelativefySafe holds at every path of the tree',
 	'grammar_root_name_free': 'decided over the GENERATED tag alphabet of data/grammar.lark (rule names, aliases, terminal names, __empty__): file_input occurs inside none of them',
 	'expand_spec_grammar': 'expand_spec with no string-level hypothesis for every tree rooted at the start symbol whose entries carry names of the generated alphabet (every real parse tree; checked against real trees on every run)',
+	'dsn_left_right': 'DSN.left(path, k) = elements[:k] and DSN.right(path, k) = elements[-k:] (everything for k = 0) re-joined, on every encoded path, for every integer k (Python slice clamping)',
+	'dsn_shift': 'DSN.shift(path, k) = elements[k:] for k > 0, elements[:k] for k < 0, the path for k = 0',
+	'dsn_root_parent': 'DSN.root = first element, DSN.parent = last but one element of an encoded path',
 	'path_valid': 'EntryPath.valid of an encoded path = it has at least one element',
 	'path_escaped': 'EntryPath.escaped_origin is injective on paths free of backslashes: dropping the escapes gives the path back',
 	'find_spec': 'ASTFinder.find(root, via, tester, depth) from any enumerated base path = the pre-order enumeration of the subtree there cut depth levels below it (never for depth < 0), keyed by the paths the WHOLE tree gives those entries (the index of the last element of via included), filtered by the tester — every tester, every depth',
@@ -1485,7 +1575,7 @@ def run(ctx: Ctx) -> int:
 	with ctx.timed('correspondence'):
 		streams = [stream_corpus(ctx), stream_path_algebra(ctx), stream_random(ctx), stream_real(ctx), stream_shape(ctx)]
 	with ctx.timed('search'):
-		searches = [search_laws(ctx), search_queries(ctx), search_expand(ctx), search_expand_real(ctx), search_resolve_order(ctx)]
+		searches = [search_laws(ctx), search_dsn(ctx), search_queries(ctx), search_expand(ctx), search_expand_real(ctx), search_resolve_order(ctx)]
 	if ALPHABET_MISSES and translate_ok:
 		# a real parse tree carries a name the generated alphabet does not list: the tie behind expand_spec_grammar is broken
 		translate_ok, translate_msg = False, f'entry names of real parse trees outside Generated/TagAlphabet.lean: {sorted(ALPHABET_MISSES)[:10]}'
@@ -1499,7 +1589,7 @@ def run(ctx: Ctx) -> int:
 		partial={
 			'proved': 'each entry has exactly one full path and lookup returns that entry (pluck_pathfy, paths_nodup, count on element paths; '
 				'pathfyS_encoded, keys_nodup, fullPathfy_encoded, countS, pluckS_pathfyS on the strings, through codec_int/elem/path/inj); '
-				'the EntryPath algebra acts as list operations on elements (break_tag_join for every index, path_first_last, path_shift, path_joined, path_parent_tag, path_contains); ids follow document order (ids_preorder, cache_by); children / parent / siblings / ancestor agree with the tree and with each other '
+				'the EntryPath algebra and the DSN functions below it act as list operations on elements (break_tag_join for every index, path_first_last, path_shift, path_joined, path_parent_tag, path_contains, dsn_left_right, dsn_shift, dsn_root_parent); ids follow document order (ids_preorder, cache_by); children / parent / siblings / ancestor agree with the tree and with each other '
 				'(children_agree, children_entries, parent_nearest, parent_of_child, siblings_agree, siblings_root, ancestor_nearest — on the path lists before class resolution); '
 				'group_by for every depth, values (subtree_enumeration, groupBy_depth/unbounded/zero, values_document_order); '
 				'expand agrees with the tree under RelativefySafe (expand_spec, expand_spec_full), which is discharged for the shipped grammar (relativefy_exact, relativefy_safe_of_root_name, grammar_root_name_free over the generated alphabet, expand_spec_grammar), and provably not without it / beyond three levels '
@@ -1507,7 +1597,7 @@ def run(ctx: Ctx) -> int:
 				'(expand_depth_bounded, conforming_depth, grammar_chain_free decided over the generated child table and resolvable tags, expand_spec_full_grammar: expand = the uncapped tree computation on every conforming tree); '
 				'ASTFinder.find / exists report full paths of the whole tree below any base path, for every tester and depth, and agree with group_by (find_spec, find_sound, find_complete, find_agrees_group_by, finder_exists); '
 				'the node class is independent of earlier queries (resolve_order, resolve_order_queries, resolve_list_order) and the query memo of Nodes is transparent for every history (memo_keys_injective over the generated keys, memo_transparent; memo_key_counterexample for via containing #) — all on the model, for all trees / worlds',
-			'correspondence_only': 'the EntryPath algebra on malformed strings (stream path-algebra); the Memo/Memoize semantics (first factory kept, exception not cached) as modelled in Model/NodesMemo.lean; the real match_feature functions are pure functions of (tree, path) — validated by query permutations on real modules; '
+			'correspondence_only': 'the EntryPath algebra and the DSN functions on malformed strings and with delimiters other than "." (stream path-algebra); the Memo/Memoize semantics (first factory kept, exception not cached) as modelled in Model/NodesMemo.lean; the real match_feature functions are pure functions of (tree, path) — validated by query permutations on real modules; '
 				'the reading of lark\'s tree builder in translate/gen_grammar_children.py (inlining, filtered tokens, placeholders) — tied by the conformance check on real parse trees and the stream grammar-shape; '
 				'match_feature implementations that call back into Nodes fill the real memo / instance cache with extra entries the model does not create (observationally equal by memo_transparent)',
 			'search_only': 'that real parse trees conform to the generated child table (hypothesis hconf of expand_spec_full_grammar) is checked on every tree the check parses, not proved about lark; expand = uncapped tree computation is additionally searched on every entry path of real parse trees',
